@@ -26,10 +26,10 @@ func TestShard3(t *testing.T) { histories(t, 3) }
 func histories(t *testing.T, shard int) {
 	run := obs.Start(t, "C16")
 	defer run.Done()
-	run.Rule("histories of 30 ops on a mini node (capacity 10..22 chunks) over families of overlapping files: identical blocks shared between files, one file being a chunk-aligned prefix of another, repeated blocks inside a file; files are uploaded, uploaded pinned, cached from a source node, deleted through DELETE /aurora/{ref} and evicted by collection runs; after every delete / eviction every other file that was locally complete is read back from the local store only (manifest + joiner) and compared byte for byte, and chunks used only by the removed file (and not pinned) must be gone; distinct = (relation kinds among files, removal kinds, #removals)",
+	run.Rule("histories of 30 ops on a mini node (capacity 10..22 chunks, 8..13 in every second history) over families of overlapping files: identical blocks shared between files, one file being a chunk-aligned prefix of another, repeated blocks inside a file; files are uploaded, uploaded pinned, cached from a source node, deleted through DELETE /aurora/{ref} and evicted by collection runs; after every delete / eviction every other file that was locally complete is read back from the local store only (manifest + joiner) and compared byte for byte, and chunks used only by the removed file (and not pinned) must be gone; distinct = (relation kinds among files, removal kinds, #removals)",
 		"'locally known' files are those uploaded or cached on the node and not deleted or evicted since",
 		"a file counts as evicted by a collection run when its root chunk was stored before the eviction and is gone afterwards")
-	n := run.N(80, 800)
+	n := run.N(200, 1600)
 	for i := shard; i < n; i += 4 {
 		c := run.Begin(fmt.Sprintf("hist/%d", i), nil)
 		if c == nil {
@@ -37,6 +37,9 @@ func histories(t *testing.T, shard int) {
 		}
 		rng := c.Rand()
 		capacity := uint64(10 + rng.Intn(13))
+		if i%2 == 1 {
+			capacity = uint64(8 + rng.Intn(6)) // small cache: collections become due often
+		}
 		w, err := fsim.NewWorld(capacity)
 		if err != nil {
 			t.Fatal(err)
@@ -157,7 +160,7 @@ func histories(t *testing.T, shard int) {
 			fi := rng.Intn(len(files))
 			f := files[fi]
 			x := rng.Intn(12)
-			if s0, _ := fsim.Dump(w.N); s0.GCSize > s0.Target && rng.Intn(2) == 0 {
+			if s0, _ := fsim.Dump(w.N); s0.GCSize > s0.Target && (i%2 == 1 || rng.Intn(2) == 0) {
 				x = 11 // a collection is due: collection branch
 			}
 			switch {
@@ -210,7 +213,9 @@ func histories(t *testing.T, shard int) {
 				if before.GCSize > before.Target && rng.Intn(3) > 0 {
 					// a collection run parked inside the run while another file (likely sharing
 					// chunks with the file being evicted) is uploaded or cached
-					point := []string{"selected", "candidate"}[rng.Intn(2)]
+					// parking points: after candidate selection, before the first candidate is
+					// processed, and at the moment the first candidate is handed to chunkinfo
+					point := []string{"selected", "candidate", "delfile", "delfile"}[rng.Intn(4)]
 					gi := rng.Intn(len(files))
 					how := []string{"upload", "cache"}[rng.Intn(2)]
 					hist = append(hist, opRec{Op: "collect-parked-" + point, File: gi, Arg: how})
@@ -247,6 +252,7 @@ func histories(t *testing.T, shard int) {
 					hist[len(hist)-1].Note = fmt.Sprintf("parked=%v evicted=%v", parked, keys(removed))
 					if parked {
 						run.Stat("parked_collections", 1)
+						run.Stat("parked_collections/"+point, 1)
 					}
 					if len(removed) > 0 {
 						// state as it was when the eviction started: a real dump taken while parked
